@@ -66,6 +66,29 @@ def run(ctx):
     h = ctx.compile_harness("c11_checked.cc", flags=("-frounding-math",))
     wd = ctx.workdir()
 
+    # ---- replay of one recorded case on the real library ---------------------------------------------
+    if ctx.replay:
+        rep = json.load(open(ctx.replay))
+        case = rep.get("case") or {}
+        plain = case.get("op") in ("neg", "abs", "add", "sub", "mul", "div", "idiv", "rem", "addMul", "subMul", "add2exp",
+                                   "sub2exp", "mul2exp", "div2exp", "smod2exp", "umod2exp", "sqrt", "gcd", "lcm")
+        if plain:
+            cmd = "%s --mode one %s %s %s %s %s %s %s %s | %s" % (
+                h, case["T"], case["P"], case["op"], case["dir"], case["to0"], case["x"], case["y"], case["e"], drv)
+            env = dict(os.environ); env["LD_LIBRARY_PATH"] = os.path.join(REPO, "src", ".libs")
+            r = subprocess.run(["bash", "-c", cmd], env=env, stdout=subprocess.PIPE, text=True)
+            print(r.stdout, end="")
+            for line in r.stdout.splitlines():
+                m = MIS_RE.match(line)
+                if m and set(m.group(2).split("+")) & PROPERTY_OBLIGATIONS:
+                    f_ = parse_fields(m.group(3))
+                    tags = [t for t in f_.get("tags", "").split(",") if t]
+                    ctx.violation("replayed: " + line[:400], {"case": f_}, found_input=True,
+                                  record={"site": SITE.get(case["op"], case["op"]), "tags": tags})
+            ctx.cov.update(evaluations=1, distinct_nontrivial=1, rule="replay of one recorded case", samples=[str(case)])
+            return
+        ctx.seed = int(rep.get("seed", ctx.seed))     # conversions / programs / assign: rerun that seed
+
     # ---- the harness's copy of Bounded_Integer_Coefficient_Policy vs the source -------------------
     rc, cfg_out, _ = ctx.run([h, "--mode", "cfg"])
     cfg_lines = (cfg_out or "").splitlines()
@@ -76,7 +99,7 @@ def run(ctx):
                       % (bic[0] if bic else None, src_bic))
 
     # ---- correspondence: parallel pipelines --------------------------------------------------------
-    count = 12000 if ctx.tier == "quick" else 300000
+    count = 60000 if ctx.tier == "quick" else 600000
     t0 = time.time()
     procs = []
     env = dict(os.environ)
